@@ -192,6 +192,9 @@ def gen_doc(rng, deep=False):
             toks += [['S', rng.choice(['b', 'i', 'a', 'span']), [], False], ['T', rng.choice(WS_TEXTS)]]
             toks.append(['E', toks[-2][1]])
         toks.append(['E', 'p'])
+    elif r < 0.93:
+        # one element followed only by text (a fragment with two top-level nodes)
+        toks = c01.tree_tokens(c01.gen_tree(rng, maxdepth=2, budget=[4])) + [['T', rng.choice([' tail text', 'after the element', '\nafter\n', 'x'])]]
     else:
         # multi-root fragment
         toks = []
